@@ -238,8 +238,9 @@ class Prop(Check):
         "ParamsLoad.C27_cached_main",
     ]
     DRIVER = "Drivers/ParamsLoad.lean"
-    QUICK_CASES = 500
+    QUICK_CASES = 400
     THOROUGH_CASES = 10000
+    PROCS_THOROUGH = 4  # shared machine while the framework is being built
     RULE = ("declared names: project_root + random subset of 10 names (unicode, empty, with space, case variants, prefixes); "
             "keyword arguments: 0..4 names (35% of the cases with an undeclared one) with values of 11 shapes; entry "
             "model_from_file / model_from_str with file name / model_from_str; 1..5 files in two directories and two "
